@@ -36,6 +36,16 @@ def imports_of(m: pg.Mod) -> set:
     for ln in m.imports:
         if ln.startswith("from pk"):
             out.add(ln.split()[1])
+        elif ln.startswith("from ."):
+            # relative spelling: resolved against the module's package
+            spec = ln.split()[1]
+            dots = len(spec) - len(spec.lstrip("."))
+            basepath = list(m.pkg)[: len(m.pkg) - (dots - 1)]
+            rest = spec.lstrip(".")
+            if rest:
+                out.add(".".join([*basepath, rest]))
+            else:
+                out.update(".".join([*basepath, n.strip().split(" as ")[0]]) for n in ln.split(" import ", 1)[1].split(","))
     return out
 
 
@@ -277,6 +287,19 @@ def gen(tier: str, seed: int):
                 p.modules = [y for y in p.modules if y.name not in drop]
                 variants.append((f"remove-sibling-subclass-modules:{'+'.join(drop)}", p))
             groups.append((f"shared-base{j}-{m.name}", base, m, variants, [["-nc"], [], ["--docstyle", "numpydoc"]][j % 3]))
+    # base classes whose module the package __init__ re-exports with a wildcard (or the class by name), subclassed in modules
+    # that import them relatively / absolutely; the usual variants add modules that reuse the class names in expressions
+    for j, (init_form, style) in enumerate([("star", "rel"), ("name", "rel"), ("star", "abs")][: 2 if tier == "quick" else 3]):
+        base = pg.Pkg()
+        shapes = pg.Mod(("pk",), "shapes", decls=[pg.Cls("Shape", methods=[pg.Fn("area", [], "float", role="inst")]), pg.Cls("Marker"), pg.Fn("make_shape", [], "Shape", body="return Shape()" if j == 2 else "...")])
+        rnd = pg.Mod(("pk",), "round", imports=["from .shapes import Shape, Marker"], decls=[pg.Cls("Circle", bases=["Shape"], methods=[pg.Fn("radius", [pg.Param("m", "Marker")], "float", role="inst")]), pg.Fn("unit_circle", [pg.Param("s", "Shape")], "Circle")])
+        sq = pg.Mod(("pk",), "square", imports=["from pk.shapes import Shape"], decls=[pg.Cls("Square", bases=["Shape"], methods=[pg.Fn("side", [], "float", role="inst")])])
+        other = pg.Mod(("pk",), "unrelated", decls=[pg.Fn("nothing_to_see", [pg.Param("n", "int")], "int")])
+        base.modules += [shapes, rnd, sq, other]
+        base.inits[("pk",)] = [pg.Reexport("star", "pk.shapes", None, None, style)] if init_form == "star" else [pg.Reexport("name", "pk.shapes", "Shape", None, style)]
+        for m in (rnd, sq):
+            variants, _users = make_variants(rng, base, m)
+            groups.append((f"reexported-base{j}-{m.name}", base, m, variants, [[], ["-nc"], []][j]))
     return groups
 
 
